@@ -57,10 +57,11 @@ func (pr *patRouter) ServeHTTP(w http.ResponseWriter, r *http.Request) {
 		return
 	}
 
+	// Allow 标头在自定义处理器之前设置，自定义处理器只负责状态码与响应体。
+	w.Header().Set(allowHeader, allows)
 	if pr.notAllowed != nil {
 		pr.notAllowed.ServeHTTP(w, r)
 	} else {
-		w.Header().Set(allowHeader, allows)
 		w.WriteHeader(http.StatusMethodNotAllowed)
 	}
 }
